@@ -764,3 +764,183 @@ Proof.
       eapply uniq_transport; [exact keeps_id| |exact Hok|exact U].
       intros g Hg Hn. apply A; [exact Hg|now apply above_other].
 Qed.
+
+(* ------------------------------------------------------------------ the operations on one relation *)
+Lemma x_in_range_rel (f : list (list relx)) i j : i < length f -> j < n_alts f i ->
+  match nth_error f i with Some e => j <? length e | None => false end = true.
+Proof.
+  unfold n_alts. intros Hi Hj. destruct (nth_error f i) as [e|] eqn:E; [now apply Nat.ltb_lt|].
+  apply nth_error_None in E. lia.
+Qed.
+
+Lemma rel_op_core b sv ts rs a tid ri l m i j o' (mop : nat -> M unit) f g :
+  nth_error ts tid = Some (mk_slot true ri (ltree l)) -> lwf b l = true -> lcontent l = (h_f a, sv) ->
+  h_reg a 0 = Some Root -> (forall q, ref_ok ts tid l (reg_at rs q) (h_reg a q)) -> new_uniq rs (h_reg a) ->
+  h_reg a (rreg m) = Some (RLive i j) ->
+  (forall k cs, node_op mop (Node k cs) (Node k (f cs))) ->
+  (forall r, f (lrel_children r) = lrel_children (g r)) ->
+  a_op o' l = a_on_relation l i j g ->
+  (i < length (h_f a) -> j < n_alts (h_f a) i -> x_in_range (h_f a) o' = true) ->
+  operands_ok o' = true ->
+  exists ts' rs' (n' : rtree),
+    runs (mop (rreg m)) (mk_state ts rs) tt (mk_state ts' rs') /\
+    runs (reg_text (rreg m)) (mk_state ts' rs') (Some (text n')) (mk_state ts' rs') /\
+    Rel b sv (mk_state ts' rs') (mk_hstate (xstep (h_f a) o') (h_reg a)).
+Proof.
+  intros HT Hw Hc H0 Hok U Hm Hop Hfg Hao Hxr Ho.
+  pose proof (Hok (rreg m)) as Hrm. rewrite Hm in Hrm. destruct (reg_at rs (rreg m)) as [gm|] eqn:Egm; [|contradiction].
+  cbn [ref_ok] in Hrm. destruct Hrm as (ci & e & cj & He & Hj & ->).
+  pose proof (nth_error_Some_lt _ _ _ HT) as Hlt.
+  pose proof (rel_slot_inv _ _ _ Hj) as Hjn.
+  destruct (nth_rel_some e j ltac:(now apply Nat.ltb_lt)) as (r & Hr).
+  destruct (entry_rel_split e j r Hr) as (rp & rq & Ech & Hn & Hupd).
+  assert (cj = length rp) by congruence. subst cj.
+  destruct (nth_entry_content _ _ _ _ _ _ Hc He) as (Hi & Hna).
+  assert (Hx' : x_in_range (fst (lcontent l)) o' = true) by (rewrite Hc; apply Hxr; [exact Hi|now rewrite Hna]).
+  destruct (live_step_tree b o' l Hw Ho Hx') as (l' & Hal & _ & Hw' & Hc' & _).
+  rewrite Hao in Hal. unfold a_on_relation in Hal. rewrite He in Hal.
+  assert (Hjb : j <? n_rels e = true) by now apply Nat.ltb_lt. rewrite Hjb in Hal. injection Hal as <-.
+  assert (HGe : get_path (ltree l) [ci] = Some (lentry_tree e)) by apply (get_path_entry _ _ _ _ He).
+  assert (HG : get_path (ltree l) ([ci] ++ [length rp]) = Some (Node RELATION (lrel_children r))).
+  { rewrite get_path_app, HGe. cbn [get_path lentry_tree children]. rewrite Ech, nth_error_app_len. reflexivity. }
+  destruct (Hop RELATION (lrel_children r) ts rs (rreg m) tid ri (ltree l) [ci] (length rp) (reg_at_nth _ _ _ Egm) HT HG)
+    as (ts' & F & R & T' & A & O).
+  assert (ET : upd_path (ltree l) ([ci] ++ [length rp]) (fun _ => Node RELATION (f (lrel_children r)))
+               = ltree (replace_at ci (RE (upd_rel e j g)) l)).
+  { rewrite (upd_path_app _ _ _ _ _ HGe). apply (upd_entry_at l i ci e); [exact He|].
+    unfold lentry_tree. cbn [upd_path]. rewrite Ech, upd_nth_app_r, Hupd, Hfg. reflexivity. }
+  rewrite ET in T'.
+  assert (Fm : F (mk_hnd tid [ci; length rp]) = mk_hnd tid [ci; length rp]) by (apply A; [exact Hlt|apply (above_self tid ([ci] ++ [length rp]))]).
+  exists ts', (map (option_map F) rs), (Node RELATION (f (lrel_children r))). split; [exact R|]. split.
+  - eapply reg_text_runs; [rewrite reg_at_map, Egm; cbn [option_map]; now rewrite Fm|exact T'|].
+    cbn [s_tree]. rewrite <- ET. exact (get_path_upd_path _ _ (fun _ => Node RELATION (f (lrel_children r))) _ HG).
+  - exists tid, ri, (replace_at ci (RE (upd_rel e j g)) l). cbn [trees regs h_f h_reg].
+    split; [exact T'|]. split; [exact Hw'|]. split; [rewrite Hc', Hc; reflexivity|]. split; [exact H0|].
+    assert (O' : forall j0 sl, nth_error ts j0 = Some sl -> j0 <> tid -> nth_error ts' j0 = Some sl).
+    { intros j0 sl Hj0 Hn0. rewrite O; [exact Hj0|exact Hn0|eapply nth_error_Some_lt; exact Hj0]. }
+    assert (A' : forall g0, h_tid g0 < length ts -> above tid [ci] g0 -> F g0 = g0).
+    { intros g0 Hg0 Ha0. apply A; [exact Hg0|now apply above_deeper]. }
+    split.
+    + eapply (entry_edit_refs ts ts' rs F tid l i ci e); [exact He|exact O'|exact A'|exact Hlt| |exact Hok].
+      intros j0 cj0 Hj0. split.
+      * apply A; [exact Hlt|]. destruct (Nat.eq_dec cj0 (length rp)) as [->|Hne]; [apply (above_self tid ([ci] ++ [length rp]))|].
+        apply (above_sibling tid [ci] (length rp) cj0 [] []). congruence.
+      * rewrite Hupd. rewrite Ech in Hj0. rewrite <- Hj0. symmetry. apply nth_index_replace_same. reflexivity.
+    + apply uniq_remap_id. eapply uniq_transport; [exact keeps_id| |exact Hok|exact U].
+      intros g0 Hg0 Hn0. apply A; [exact Hg0|now apply above_other].
+Qed.
+
+(* the wrappers of run_op *)
+Lemma through_gen r (mop : M unit) ts rs ts' rs' (n' : rtree) g :
+  reg_at rs r = Some g -> runs mop (mk_state ts rs) tt (mk_state ts' rs') ->
+  runs (reg_text r) (mk_state ts' rs') (Some (text n')) (mk_state ts' rs') ->
+  runs (through r mop) (mk_state ts rs) (0%N, Some (text n')) (mk_state ts' rs').
+Proof.
+  intros Hr R Rt. unfold through, with_reg. rbind; [apply reg_at_has|]. rewrite Hr.
+  rbind; [exact R|]. rbind; [exact Rt|]. rdone.
+Qed.
+Lemma through_none r (mop : M unit) ts rs : reg_at rs r = None ->
+  runs (through r mop) (mk_state ts rs) (1%N, None) (mk_state ts rs).
+Proof. intros Hr. unfold through, with_reg. rbind; [apply reg_at_has|]. rewrite Hr. rdone. Qed.
+
+Lemma step_on_relation b sv st a m X (mk : nat -> nat -> aop) (mop : nat -> M unit) f g a' tr :
+  run_op fixed X = through (rreg m) (mop (rreg m)) ->
+  h_op X a = match h_reg a (rreg m) with
+             | None => Some (a, [])
+             | Some (RLive i j) => Some (mk_hstate (xstep (h_f a) (mk i j)) (h_reg a), [mk i j])
+             | _ => None
+             end ->
+  (forall k cs, node_op mop (Node k cs) (Node k (f cs))) ->
+  (forall r, f (lrel_children r) = lrel_children (g r)) ->
+  (forall l i j, a_op (mk i j) l = a_on_relation l i j g) ->
+  (forall fc i j, x_in_range fc (mk i j) = match nth_error fc i with Some e => j <? length e | None => false end) ->
+  Rel b sv st a -> h_op X a = Some (a', tr) -> forallb operands_ok tr = true ->
+  exists out st', run_op fixed X st = Ok (out, st') /\ Rel b sv st' a'.
+Proof.
+  intros HX Hh Hop Hfg Hao Hxr HR Ha Ho. destruct st as [ts rs].
+  pose proof HR as (tid & ri & l & HT & Hw & Hc & H0 & Hok & U). cbn [trees regs] in *.
+  rewrite Hh in Ha. pose proof (Hok (rreg m)) as Hm. destruct (h_reg a (rreg m)) as [x|] eqn:Ex.
+  - destruct x; try discriminate. injection Ha as <- <-. cbn [forallb] in Ho. rewrite andb_true_r in Ho.
+    destruct (rel_op_core b sv ts rs a tid ri l m i j (mk i j) mop f g HT Hw Hc H0 Hok U Ex Hop Hfg (Hao l i j))
+      as (ts' & rs' & n' & R & Rt & HR'); [|exact Ho|].
+    { intros Hi Hj. rewrite Hxr. now apply x_in_range_rel. }
+    destruct (ref_some _ _ _ _ _ Hm) as (gm & Egm).
+    exists (0%N, Some (text n')), (mk_state ts' rs'). split; [|exact HR'].
+    apply runs_intro. rewrite HX. eapply through_gen; eauto.
+  - injection Ha as <- <-. apply ref_none in Hm. exists (1%N, @None str), (mk_state ts rs). split; [|exact HR].
+    apply runs_intro. rewrite HX. now apply through_none.
+Qed.
+
+Lemma step_set_version b sv st a m v a' tr : Rel b sv st a -> h_op (OSetVersion m v) a = Some (a', tr) ->
+  forallb operands_ok tr = true -> exists out st', run_op fixed (OSetVersion m v) st = Ok (out, st') /\ Rel b sv st' a'.
+Proof.
+  apply (step_on_relation b sv st a m (OSetVersion m v) (fun i j => ASetVersion i j v)
+           (fun r => relation_set_version fixed r v) (set_version_cs v) (a_set_version v)); try reflexivity.
+  - intros k cs. apply set_version_node_op_gen.
+  - apply set_version_commute.
+Qed.
+Lemma step_set_archqual b sv st a m q a' tr : Rel b sv st a -> h_op (OSetArchqual m q) a = Some (a', tr) ->
+  forallb operands_ok tr = true -> exists out st', run_op fixed (OSetArchqual m q) st = Ok (out, st') /\ Rel b sv st' a'.
+Proof.
+  apply (step_on_relation b sv st a m (OSetArchqual m q) (fun i j => ASetArchqual i j q)
+           (fun r => relation_set_archqual r q) (set_archqual_cs q) (a_set_archqual q)); try reflexivity.
+  - intros k cs. apply set_archqual_node_op_gen.
+  - apply set_archqual_commute.
+Qed.
+Lemma step_set_archs b sv st a m x a' tr : Rel b sv st a -> h_op (OSetArchs m x) a = Some (a', tr) ->
+  forallb operands_ok tr = true -> exists out st', run_op fixed (OSetArchs m x) st = Ok (out, st') /\ Rel b sv st' a'.
+Proof.
+  apply (step_on_relation b sv st a m (OSetArchs m x) (fun i j => ASetArchs i j x)
+           (fun r => relation_set_architectures_v fixed r x) (set_architectures_cs x) (a_set_archs x)); try reflexivity.
+  - intros k cs. apply set_architectures_node_op_gen.
+  - apply set_archs_commute.
+Qed.
+Lemma step_add_profile b sv st a m x a' tr : Rel b sv st a -> h_op (OAddProfile m x) a = Some (a', tr) ->
+  forallb operands_ok tr = true -> exists out st', run_op fixed (OAddProfile m x) st = Ok (out, st') /\ Rel b sv st' a'.
+Proof.
+  apply (step_on_relation b sv st a m (OAddProfile m x) (fun i j => AAddProfile i j x)
+           (fun r => relation_add_profile_v fixed r x) (add_profile_cs x) (a_add_profile x)); try reflexivity.
+  - intros k cs. apply add_profile_node_op_gen.
+  - apply add_profile_commute.
+Qed.
+Lemma step_drop_constraint b sv st a m a' tr : Rel b sv st a -> h_op (ODropConstraint m) a = Some (a', tr) ->
+  forallb operands_ok tr = true -> exists out st', run_op fixed (ODropConstraint m) st = Ok (out, st') /\ Rel b sv st' a'.
+Proof.
+  intros HR Ha Ho. destruct st as [ts rs].
+  pose proof HR as (tid & ri & l & HT & Hw & Hc & H0 & Hok & U). cbn [trees regs] in *.
+  cbn [h_op] in Ha. pose proof (Hok (rreg m)) as Hm. destruct (h_reg a (rreg m)) as [x|] eqn:Ex.
+  - destruct x; try discriminate. injection Ha as <- <-. cbn [forallb] in Ho. rewrite andb_true_r in Ho.
+    destruct (rel_op_core b sv ts rs a tid ri l m i j (ADropConstraint i j) (fun r => relation_set_version fixed r None)
+                (set_version_cs None) (a_set_version None) HT Hw Hc H0 Hok U Ex
+                (fun k cs => set_version_node_op_gen None k cs) (set_version_commute None) eq_refl)
+      as (ts' & rs' & n' & R & Rt & HR'); [|exact Ho|].
+    { intros Hi Hj. cbn [x_in_range]. now apply x_in_range_rel. }
+    destruct (ref_some _ _ _ _ _ Hm) as (gm & Egm).
+    cbn [relation_set_version] in R. destruct (runs_bind_inv _ _ _ _ _ R) as (bb & st1 & R1 & R2).
+    apply runs_ret_inv in R2. destruct R2 as [_ ->].
+    exists (if bb then 6%N else 7%N, Some (text n')), (mk_state ts' rs'). split; [|exact HR'].
+    apply runs_intro. cbn [run_op]. unfold with_reg. rbind; [apply reg_at_has|]. rewrite Egm.
+    rbind; [exact R1|]. rbind; [exact Rt|]. rdone.
+  - injection Ha as <- <-. apply ref_none in Hm. exists (1%N, @None str), (mk_state ts rs). split; [|exact HR].
+    apply runs_intro. cbn [run_op]. unfold with_reg. rbind; [apply reg_at_has|]. rewrite Hm. rdone.
+Qed.
+
+(* ------------------------------------------------------------------ one operation, programs: the additive operations *)
+Theorem handles_step_additive b sv st a o a' tr : additive o = true ->
+  Rel b sv st a -> h_op o a = Some (a', tr) -> forallb operands_ok tr = true ->
+  exists out st', run_op fixed o st = Ok (out, st') /\ Rel b sv st' a'.
+Proof.
+  intros Hadd HR Ha Ho. destruct o; try discriminate.
+  - destruct (step_get_entry _ _ _ _ _ _ _ _ HR Ha) as (out & st' & H1 & H2 & _). eauto.
+  - destruct (step_get_rel _ _ _ _ _ _ _ _ _ HR Ha) as (out & st' & H1 & H2 & _). eauto.
+  - destruct (step_new_entry _ _ _ _ _ _ _ _ HR Ha) as (out & st' & H1 & H2 & _). eauto.
+  - destruct (step_new_rel _ _ _ _ _ _ _ _ HR Ha) as (out & st' & H1 & H2 & _). eauto.
+  - eapply step_push; eauto.
+  - eapply step_insert; eauto.
+  - eapply step_epush; eauto.
+  - eapply step_set_version; eauto.
+  - eapply step_drop_constraint; eauto.
+  - eapply step_set_archqual; eauto.
+  - eapply step_set_archs; eauto.
+  - eapply step_add_profile; eauto.
+Qed.
